@@ -131,6 +131,20 @@ pub fn run(out: &mut Out, tier: &str, seed: u64) {
             }
         }
     }
+    // the number grammar, enumerated: every integer-part length around the digit-count thresholds x every
+    // fraction / exponent shape (well-formed and damaged), bare and inside containers
+    for (k, lit) in gen::number_grammar().into_iter().enumerate() {
+        let docs: Vec<String> = if thorough || k % 3 == 0 {
+            vec![lit.clone(), format!("[{lit}]"), format!("{{\"v\":{lit}}}"), format!("[1, {lit} ,2]")]
+        } else {
+            vec![lit.clone(), if k % 3 == 1 { format!("[{lit}]") } else { format!("{{\"v\":{lit},\"w\":0}}") }]
+        };
+        for doc in docs {
+            out.count("stream:number-grammar");
+            skip_entries(out, doc.as_bytes());
+            full_entries(out, doc.as_bytes());
+        }
+    }
     // nesting depth around the limits
     let lim = sonic_rs::verif_hooks::parser::MAX_NESTED_DEPTH;
     let slim = sonic_rs::verif_hooks::de::MAX_ALLOWED_DEPTH;
